@@ -242,7 +242,16 @@ class Case:
         present = [d for s, d in self.w.snap_by_sid.items() if d['location'] in self.w.backend.objects]
         if not present or r.random() < 0.55:
             return None
-        d = r.choice(present)
+        # a filter may name ANY snapshot the user ever saw — also one that has been deleted since (its entry may still sit in a cache
+        # directory) — and may be written as a prefix, as the complete name, or anchored at both ends
+        ever = list(self.w.snap_by_sid.values())
+        gone = [d for d in ever if d['location'] not in self.w.backend.objects]
+        d = r.choice(gone) if gone and r.random() < 0.35 else r.choice(present)
+        form = r.choice(['prefix', 'prefix', 'prefix', 'full', 'anchored'])
+        if form == 'full':
+            return d['name']
+        if form == 'anchored':
+            return '^' + d['name'] + '$'
         return '^' + d['name'][:r.choice([1, 1, 2, 64])]
 
     def rows_to_model(self, rows):
